@@ -1166,6 +1166,96 @@ theorem dithers1_sum_zero [CharZero K] (n : Nat) (hn : 0 < n) : (dithers1 n : Li
   field_simp
   ring
 
+/-! ### the dither lists themselves (`make_uniform_grid(oversampling, 1)`): length, count, symmetry, range -/
+
+/-- one dither per sub-pixel along an axis -/
+theorem dithers1_length (n : Nat) : (dithers1 n : List K).length = n := by simp [dithers1]
+
+/-- **the number of dithered evaluations is `Π n_k`** — the divisor `len(dithers)` of `statistic='mean'` and the
+factor by which `'sum'` exceeds the mean, for every per-axis oversampling -/
+theorem dithers_count (ns : List Nat) :
+    (tensorPts (ns.map dithers1) : List (List K)).length = ns.foldr (· * ·) 1 := by
+  rw [tensorPts_len, List.map_map]
+  have : (List.length ∘ (dithers1 : Nat → List K)) = id := by
+    funext n; simp [dithers1_length]
+  rw [this, List.map_id]; rfl
+
+/-- the `j`-th dither along an axis oversampled `n` times -/
+theorem dithers1_getElem? (n j : Nat) (hj : j < n) :
+    (dithers1 n : List K)[j]? = some (((2 * j + 1 : Nat) : K) / ((2 * n : Nat) : K) - ((1 : Nat) : K) / ((2 : Nat) : K)) := by
+  simp [dithers1, List.getElem?_map, List.getElem?_range hj]
+
+/-- **the dither offsets are symmetric**: the `j`-th from the left is minus the `j`-th from the right, for every
+oversampling factor (so they add up to zero, `dithers1_sum_zero`, and an odd factor has the offset 0 in the middle) -/
+theorem dithers1_symmetric [CharZero K] (n j : Nat) (hj : j < n) (d : K) (hd : (dithers1 n : List K)[j]? = some d) :
+    (dithers1 n : List K)[n - 1 - j]? = some (-d) := by
+  rw [dithers1_getElem? n j hj] at hd
+  rw [dithers1_getElem? n (n - 1 - j) (by omega)]
+  simp only [Option.some.injEq] at hd ⊢
+  subst hd
+  have hn : ((2 * n : Nat) : K) ≠ 0 := by
+    have : 2 * n ≠ 0 := by omega
+    exact_mod_cast this
+  have hsum : ((2 * (n - 1 - j) + 1 : Nat) : K) + ((2 * j + 1 : Nat) : K) = ((2 * n : Nat) : K) := by
+    have : 2 * (n - 1 - j) + 1 + (2 * j + 1) = 2 * n := by omega
+    exact_mod_cast this
+  have h2 : (((2 : Nat) : K)) ≠ 0 := by norm_num
+  field_simp
+  have := hsum
+  push_cast at this ⊢
+  linarith
+
+/-- **every dither stays inside its pixel**: `-1/2 < d < 1/2` -/
+theorem dithers1_range (n : Nat) (d : K) (hd : d ∈ (dithers1 n : List K)) : -(1 / 2 : K) < d ∧ d < 1 / 2 := by
+  simp only [dithers1, List.mem_map, List.mem_range] at hd
+  obtain ⟨j, hj, rfl⟩ := hd
+  have hn : (0 : K) < ((2 * n : Nat) : K) := by
+    have : 0 < 2 * n := by omega
+    exact_mod_cast this
+  have h1 : (0 : K) < ((2 * j + 1 : Nat) : K) / ((2 * n : Nat) : K) := div_pos (by exact_mod_cast Nat.succ_pos _) hn
+  have h2 : ((2 * j + 1 : Nat) : K) / ((2 * n : Nat) : K) < 1 := by
+    rw [div_lt_one hn]
+    have : 2 * j + 1 < 2 * n := by omega
+    exact_mod_cast this
+  constructor <;> push_cast at h1 h2 ⊢ <;> linarith
+
+example : (dithers1 3 : List Rat) = [-1 / 3, 0, 1 / 3] ∧ (dithers1 2 : List Rat) = [-1 / 4, 1 / 4] ∧
+    (tensorPts ([2, 3].map dithers1) : List (List Rat)).length = 6 := by
+  refine ⟨?_, ?_, ?_⟩ <;> decide +kernel
+
+/-- **`make_supersampled_grid` puts its points exactly at the dithered positions**: along every axis of a regular
+grid the `dim·n` fine coordinates are, pixel by pixel, the coarse coordinate `zero + i·delta` plus `delta` times the
+dither offsets `dithers1 n` — for every oversampling factor `n > 0`.  (So evaluating a generator on the supersampled
+grid and binning it back is the same set of evaluations as the dithered sub-grids of `evaluate_supersampled`.) -/
+theorem superAxis_eq_dithered [CharZero K] (zero delta : K) (dim n : Nat) (hn : 0 < n) :
+    superAxis zero delta dim n =
+      (List.range dim).flatMap fun (i : Nat) => (dithers1 n : List K).map fun d => (zero + (i : K) * delta) + d * delta := by
+  have hn' : (n : K) ≠ 0 := by exact_mod_cast (Nat.pos_iff_ne_zero.mp hn)
+  have key : ∀ i : Nat, ((List.range n).map fun j => i * n + j).map (fun (k : Nat) =>
+        (zero - delta / ((2 : Nat) : K) + delta / (n : K) / ((2 : Nat) : K)) + (k : K) * (delta / (n : K)))
+      = (dithers1 n : List K).map fun d => (zero + (i : K) * delta) + d * delta := by
+    intro i
+    unfold dithers1
+    rw [List.map_map, List.map_map]
+    apply List.map_congr_left
+    intro j _
+    simp only [Function.comp]
+    push_cast
+    field_simp
+    ring
+  unfold superAxis
+  rw [range_mul_eq_flatMap, List.map_flatMap]
+  simp only [key]
+
+/-- the supersampled axis has `dim·n` points, and the mean of the `n` sub-pixel coordinates of a pixel is the pixel's
+own coordinate (binning the supersampled grid gives the grid back) -/
+theorem superAxis_length (zero delta : K) (dim n : Nat) : (superAxis zero delta dim n).length = dim * n := by
+  simp [superAxis]
+
+example : superAxis (0 : Rat) 1 2 2 = [-1 / 4, 1 / 4, 3 / 4, 5 / 4] ∧
+    superAxis (1 : Rat) (-3) 1 3 = [2, 1, 0] := by
+  constructor <;> decide +kernel
+
 /-- hcipy's dither set — the tensor product of the per-axis uniform dithers, any oversampling
 factors — has zero mean -/
 theorem uniform_dithers_zero_mean [CharZero K] (ns : List Nat) (h : ∀ n ∈ ns, 0 < n) :
